@@ -36,7 +36,7 @@ def discharge(ctx, hyps, goal, timeout_ms=20000, stages='all'):
         if r2 == 'unsat': return 'discharged', time.time() - t, '', 'cvc5'
         return 'failed', time.time() - t, 'z3-ematching: %s; cvc5(8s): %s' % (reason1, r2), ''
     text = '(set-logic ALL)\n' + s.to_smt2()
-    tl = max(timeout_ms // 1000, 20)
+    tl = max(timeout_ms // 2000, 10)
     r2 = _cli(['/usr/bin/cvc5', '--tlimit=%d' % (tl * 1000)], text, tl)
     if r2 == 'unsat': return 'discharged', time.time() - t, '', 'cvc5'
     r3 = _cli(['/usr/bin/z3', '-T:%d' % tl], text, tl)
@@ -113,6 +113,18 @@ def run_function(repo, cls, name, kind, params, spec_module='specs.ir', opts=Non
     base_pc = [g for _, _, g in inv0] + [h0['alloc'][self_], ctx.cls(self_) == ctx.C[cls]]
     alts = [param_alternatives(ctx, h0, p, k) for p, k in params]
     agg = {}      # obligation name -> [status, time, detail]
+    budget = {'expensive_failures': 0}
+    MAX_EXPENSIVE_FAILURES = opts.get('max_expensive_failures', 4)
+    def full_discharge(hyps, goal):
+        """full pipeline, but once several obligations of this function have failed after the full pipeline the remaining
+        failures are reported from the first stage only (a broken function fails many obligations; retrying each one on
+        every back end adds minutes and no information)"""
+        if budget['expensive_failures'] >= MAX_EXPENSIVE_FAILURES:
+            r = discharge(ctx, hyps, goal, opts.get('timeout_ms', 20000), stages='cheap')
+            return r
+        r = discharge(ctx, hyps, goal, opts.get('timeout_ms', 20000))
+        if r[0] != 'discharged': budget['expensive_failures'] += 1
+        return r
     def record(name, status, dt, detail='', backend=''):
         rank = {'discharged': 0, 'undecided': 1, 'failed': 2}
         cur = agg.get(name)
@@ -142,10 +154,12 @@ def run_function(repo, cls, name, kind, params, spec_module='specs.ir', opts=Non
             out['paths'] += len(se.outcomes)
             # mid-path obligations (loop init/preservation, cover-before-write, ...)
             for oname, hyps, goal, shaky in se.obligations:
-                stt, dt, why, be = discharge(ctx, hyps, goal, opts.get('timeout_ms', 20000))
+                stt, dt, why, be = discharge(ctx, hyps, goal, opts.get('timeout_ms', 20000), stages='cheap')
+                if stt != 'discharged':
+                    stt, dt, why, be = full_discharge(hyps, goal)
                 if stt != 'discharged' and shaky:
                     from z3 import BoolVal
-                    fst, fdt, fwhy, fbe = discharge(ctx, hyps, BoolVal(False), opts.get('timeout_ms', 20000))
+                    fst, fdt, fwhy, fbe = discharge(ctx, hyps, BoolVal(False), opts.get('timeout_ms', 20000), stages='cheap')
                     if fst == 'discharged': stt, why, be = 'discharged', 'path infeasible', fbe
                     elif stt == 'failed': stt = 'undecided'; why = 'path feasibility undecided; ' + why
                 record(oname, stt, dt, why, be)
@@ -179,12 +193,14 @@ def run_function(repo, cls, name, kind, params, spec_module='specs.ir', opts=Non
                         # before anything is reported: is this path feasible at all?  (feasibility checks during execution are
                         # cheap and may have let an infeasible path through)
                         from z3 import BoolVal
-                        fst, fdt, fwhy, fbe = discharge(ctx, s.pc, BoolVal(False), opts.get('timeout_ms', 20000))
+                        fst, fdt, fwhy, fbe = full_discharge(s.pc, BoolVal(False)) if budget['expensive_failures'] < MAX_EXPENSIVE_FAILURES \
+                            else discharge(ctx, s.pc, BoolVal(False), opts.get('timeout_ms', 20000), stages='cheap')
+                        if fst != 'discharged': budget['expensive_failures'] = max(0, budget['expensive_failures'] - 1)   # a feasible path is not a failure
                         for oname, g in still:
                             if fst == 'discharged':
                                 record(oname, 'discharged', fdt, 'path infeasible', fbe); fdt = 0
                                 continue
-                            stt, dt, why, be = discharge(ctx, s.pc, g, opts.get('timeout_ms', 20000))
+                            stt, dt, why, be = full_discharge(s.pc, g)
                             if stt == 'failed' and s.shaky: stt = 'undecided'; why = 'path feasibility undecided; ' + why
                             record(oname, stt, dt, why, be)
         if not agg:
